@@ -1,2 +1,77 @@
-//! Kani proof harnesses, compiled inside the scratch overlay of fast_qr (cfg(kani)).
+//! Kani proof harnesses, compiled inside the scratch overlay of fast_qr (cfg(kani)); never part of /repo.
+//! The reference side of every harness is written from ISO/IEC 18004 and does not call the code under test.
+#![allow(dead_code)]
+use crate::datamasking::Mask;
+use crate::encode::Mode;
+use crate::{Version, ECL};
+
+pub const VERSIONS: [Version; 40] = [
+    Version::V01, Version::V02, Version::V03, Version::V04, Version::V05, Version::V06, Version::V07, Version::V08,
+    Version::V09, Version::V10, Version::V11, Version::V12, Version::V13, Version::V14, Version::V15, Version::V16,
+    Version::V17, Version::V18, Version::V19, Version::V20, Version::V21, Version::V22, Version::V23, Version::V24,
+    Version::V25, Version::V26, Version::V27, Version::V28, Version::V29, Version::V30, Version::V31, Version::V32,
+    Version::V33, Version::V34, Version::V35, Version::V36, Version::V37, Version::V38, Version::V39, Version::V40,
+];
+pub const MASKS: [Mask; 8] = [
+    Mask::Checkerboard, Mask::HorizontalLines, Mask::VerticalLines, Mask::DiagonalLines,
+    Mask::LargeCheckerboard, Mask::Fields, Mask::Diamonds, Mask::Meadow,
+];
+pub const ECLS: [ECL; 4] = [ECL::L, ECL::M, ECL::Q, ECL::H];
+pub const MODES: [Mode; 3] = [Mode::Numeric, Mode::Alphanumeric, Mode::Byte];
+
+pub fn any_version_index() -> usize {
+    let v: usize = kani::any();
+    kani::assume(v < 40);
+    v
+}
+pub fn any_level_index() -> usize {
+    let l: usize = kani::any();
+    kani::assume(l < 4);
+    l
+}
+
+// ---- ISO reference data (Table 9: EC codewords per block, number of blocks; rows L, M, Q, H)
+pub const EC_PER_BLOCK: [[u8; 40]; 4] = [
+    [7, 10, 15, 20, 26, 18, 20, 24, 30, 18, 20, 24, 26, 30, 22, 24, 28, 30, 28, 28, 28, 28, 30, 30, 26, 28, 30, 30, 30, 30, 30, 30, 30, 30, 30, 30, 30, 30, 30, 30],
+    [10, 16, 26, 18, 24, 16, 18, 22, 22, 26, 30, 22, 22, 24, 24, 28, 28, 26, 26, 26, 26, 28, 28, 28, 28, 28, 28, 28, 28, 28, 28, 28, 28, 28, 28, 28, 28, 28, 28, 28],
+    [13, 22, 18, 26, 18, 24, 18, 22, 20, 24, 28, 26, 24, 20, 30, 24, 28, 28, 26, 30, 28, 30, 30, 30, 30, 28, 30, 30, 30, 30, 30, 30, 30, 30, 30, 30, 30, 30, 30, 30],
+    [17, 28, 22, 16, 22, 28, 26, 26, 24, 28, 24, 28, 22, 24, 24, 30, 28, 28, 26, 28, 30, 24, 30, 30, 30, 30, 30, 30, 30, 30, 30, 30, 30, 30, 30, 30, 30, 30, 30, 30],
+];
+pub const NUM_BLOCKS: [[u8; 40]; 4] = [
+    [1, 1, 1, 1, 1, 2, 2, 2, 2, 4, 4, 4, 4, 4, 6, 6, 6, 6, 7, 8, 8, 9, 9, 10, 12, 12, 12, 13, 14, 15, 16, 17, 18, 19, 19, 20, 21, 22, 24, 25],
+    [1, 1, 1, 2, 2, 4, 4, 4, 5, 5, 5, 8, 9, 9, 10, 10, 11, 13, 14, 16, 17, 17, 18, 20, 21, 23, 25, 26, 28, 29, 31, 33, 35, 37, 38, 40, 43, 45, 47, 49],
+    [1, 1, 2, 2, 4, 4, 6, 6, 8, 8, 8, 10, 12, 16, 12, 17, 16, 18, 21, 20, 23, 23, 25, 27, 29, 34, 34, 35, 38, 40, 43, 45, 48, 51, 53, 56, 59, 62, 65, 68],
+    [1, 1, 2, 4, 4, 4, 5, 6, 8, 8, 11, 11, 16, 16, 18, 16, 19, 21, 25, 25, 25, 34, 30, 32, 35, 37, 40, 42, 45, 48, 51, 54, 57, 60, 63, 66, 70, 74, 77, 81],
+];
+
+/// number of data-region modules of version `ver` (1-based), from the symbol geometry
+pub fn raw_data_modules(ver: usize) -> usize {
+    let mut result = (16 * ver + 128) * ver + 64;
+    if ver >= 2 {
+        let num_align = ver / 7 + 2;
+        result -= (25 * num_align - 10) * num_align - 55;
+        if ver >= 7 {
+            result -= 36;
+        }
+    }
+    result
+}
+
+/// ISO data codewords for (version index, level index)
+pub fn iso_data_codewords(v: usize, l: usize) -> usize {
+    raw_data_modules(v + 1) / 8 - (EC_PER_BLOCK[l][v] as usize) * (NUM_BLOCKS[l][v] as usize)
+}
+
+pub fn iso_cci_bits(v: usize, mode: usize) -> usize {
+    let class = if v + 1 <= 9 { 0 } else if v + 1 <= 26 { 1 } else { 2 };
+    match mode {
+        0 => [10, 12, 14][class],
+        1 => [9, 11, 13][class],
+        _ => [8, 16, 16][class],
+    }
+}
+
 mod tables;
+mod capacity;
+mod encoding;
+mod gf;
